@@ -44,7 +44,10 @@ def main():
             src = open(demo).read()
             tests = re.findall(r"^func (Test\w+)\(", src, re.M)
             pkg = re.search(r"^package (\w+)", src, re.M).group(1)
-            sub = {"litefs_test": ".", "litefs": ".", "http_test": "http", "http": "http", "fuse_test": "fuse", "fuse": "fuse"}.get(pkg, ".")
+            sub = meta.get("demo_dir") or {"litefs_test": ".", "litefs": ".", "http_test": "http", "http": "http", "fuse_test": "fuse", "fuse": "fuse",
+                                           "chunk": "internal/chunk", "chunk_test": "internal/chunk", "internal": "internal", "internal_test": "internal",
+                                           "consul": "consul", "consul_test": "consul", "lfsc": "lfsc", "lfsc_test": "lfsc",
+                                           "mock": "mock", "main": "cmd/litefs", "main_test": "cmd/litefs"}.get(pkg, ".")
             tags = "-tags verif" if "go:build verif" in src else ""
             shutil.copy(demo, os.path.join(wt, sub, "zz_seed_demo_test.go"))
             run = "go test %s -count=1 -timeout 300s -run '^(%s)$' ./%s" % (tags, "|".join(tests), sub)
@@ -94,7 +97,13 @@ def main():
         for f in ("demo_test.go", "demo.md"):
             if os.path.exists(os.path.join(d, f)):
                 shutil.copy(os.path.join(d, f), os.path.join(dst, f))
-        meta["outcome"] = {k: out[k] for k in ("confirmed", "detected", "checks", "builds", "baseline_145", "demo_clean_passes", "demo_patched_fails") if k in out}
+        res = {k: out[k] for k in ("confirmed", "detected", "checks", "builds", "baseline_145", "demo_clean_passes", "demo_patched_fails") if k in out}
+        old = os.path.join(dst, "meta.json")
+        if os.path.exists(old) and "outcome" in json.load(open(old)):
+            meta = json.load(open(old))       # keep the first run; this one is a re-run against the strengthened checks
+            meta["outcome_rerun"] = res
+        else:
+            meta["outcome"] = res
         json.dump(meta, open(os.path.join(dst, "meta.json"), "w"), indent=1)
     return 0
 
